@@ -220,7 +220,8 @@ DATETIME_STRS = ["2018-01-02T03:04:05", "2018-01-02 03:04:05", "2018-01-02T03:04
                  "20180102T030405", "2018-01-02T24:00:00", "2018-01-02T03:04:05,5", "2018-01-02t03:04:05",
                  "2018-01-02T03:04:05-00:00", "2018-W01-1T10:00", "2018-01-02T25:00", "2018-01-02T03:04:05+24:00",
                  "2018-01-02T03:04:05.1234567", "2018-01-02 03:04:05 UTC", "Tue, 02 Jan 2018 03:04:05 GMT"]
-OVERFLOW_STRS = ["/6099999999", "99999999999999999999-01-01", "1e999999", "6099999999", "2018-01-02T99999999999"]
+OVERFLOW_STRS = ["/6099999999", "99999999999999999999-01-01", "1e999999", "6099999999", "2018-01-02T99999999999",
+                 "9" * 400, "-1" + "0" * 330]      # integers beyond the range of a double (float() gives inf)
 
 
 @st.composite
